@@ -197,6 +197,9 @@ pub enum Space {
     Enum { u: Universe, stride: u64, offset: u64 },
     /// BFS from a root to `depth` plies (None = to fixpoint), successor filter by max piece count not needed
     Bfs { name: String, root: String, depth: Option<u32>, expand_cap: Option<u32> },
+    /// one fixed long game from `root`: every prefix (0..=plies) is a state whose "reached" game carries the whole
+    /// history (state stack up to `plies`+1 entries). The line is produced by a deterministic rule (see `long_line`).
+    Line { name: String, root: String, plies: u32, rule: u32 },
 }
 
 impl Space {
@@ -212,8 +215,12 @@ impl Space {
     pub fn closure(name: &str, root: &str) -> Space {
         Space::Bfs { name: name.into(), root: root.into(), depth: None, expand_cap: None }
     }
+    pub fn line(name: &str, root: &str, plies: u32, rule: u32) -> Space {
+        Space::Line { name: name.into(), root: root.into(), plies, rule }
+    }
     pub fn name(&self) -> String {
         match self {
+            Space::Line { name, plies, .. } => format!("LINE[{}] {} plies", name, plies),
             Space::Enum { u, stride, offset } => {
                 if *stride > 1 {
                     format!("{} (every {}th member from offset {})", u.name(), stride, offset)
@@ -301,11 +308,63 @@ pub fn run_spaces(spaces: &[Space], visit: Visitor) -> (Acc, Vec<SpaceReport>) {
                 note = format!("layers {:?}{}", layers, if depth.is_none() { if complete { " (fixpoint reached)" } else { " (NOT complete)" } } else { "" });
                 total.merge(acc);
             }
+            Space::Line { root, plies, rule, .. } => {
+                let rootp = match parse_fen_strict(root) {
+                    Ok(p) => p.pos.normalised(),
+                    Err(e) => {
+                        total.errors.push(format!("bad line root {}: {}", root, e));
+                        continue;
+                    }
+                };
+                let (line, positions) = long_line(&rootp, *plies, *rule);
+                let idx: Vec<usize> = (0..positions.len()).collect();
+                let acc = par_items(&idx, &|_, &i, acc| {
+                    let ctx = StateCtx { pos: &positions[i], root: Some(&rootp), path: &line[..i], space: &name, index: i as u64 };
+                    acc.states += 1;
+                    visit(&ctx, acc);
+                });
+                note = format!("{} plies played (captures {}, castlings {}, promotions {}, en-passant captures {}), last position {}", line.len(), line.iter().filter(|m| m.captured != 0).count(), line.iter().filter(|m| matches!(m.kind, MvKind::CastleShort | MvKind::CastleLong)).count(), line.iter().filter(|m| m.kind == MvKind::Promotion).count(), line.iter().filter(|m| m.kind == MvKind::EnPassant).count(), positions.last().map(|p| p.fen4(false)).unwrap_or_default());
+                total.merge(acc);
+            }
         }
         let n = total.states - before;
         reports.push(SpaceReport { name: name.clone(), states: n, exhaustive: true, note: format!("{} [{:.1}s]", note, t0.elapsed().as_secs_f64()) });
     }
     (total, reports)
+}
+
+/// A fixed long game: at ply i the mover plays the legal move (sorted by text) selected by a linear-congruential
+/// sequence seeded with `rule`; moves that end the game are skipped while another exists. Rule bit 0 set = "shuffle"
+/// flavour: captures and pawn moves are avoided when a quiet piece move exists (material and rights history stay rich
+/// for hundreds of plies); rule bit 0 clear = any legal move (material thins out, endgame phase is entered).
+/// Deterministic: the same (root, plies, rule) always gives the same line - it is a fixed history, not a sample.
+pub fn long_line(root: &Pos, plies: u32, rule: u32) -> (Vec<Mv>, Vec<Pos>) {
+    let mut x: u64 = 0x9E3779B97F4A7C15u64.wrapping_mul(rule as u64 + 1);
+    let mut cur = *root;
+    let mut line = vec![];
+    let mut positions = vec![cur];
+    for _ in 0..plies {
+        let mut l = cur.legal();
+        if l.is_empty() {
+            break;
+        }
+        l.sort_by_key(|m| m.uci());
+        let alive: Vec<Mv> = l.iter().filter(|m| !cur.apply(m).normalised().legal().is_empty()).cloned().collect();
+        let mut pool = if alive.is_empty() { l } else { alive };
+        if rule & 1 == 1 {
+            let quiet: Vec<Mv> = pool.iter().filter(|m| m.captured == 0 && !matches!(m.kind, MvKind::Double | MvKind::Promotion | MvKind::EnPassant) && kind_of(cur.b[m.from as usize]) != P).cloned().collect();
+            // every 16th ply any move is allowed so that the game still develops
+            if !quiet.is_empty() && line.len() % 16 != 15 {
+                pool = quiet;
+            }
+        }
+        x = x.wrapping_mul(6364136223846793005).wrapping_add(1442695040888963407);
+        let m = pool[((x >> 33) as usize) % pool.len()];
+        cur = cur.apply(&m).normalised();
+        line.push(m);
+        positions.push(cur);
+    }
+    (line, positions)
 }
 
 /// Layered BFS over model positions from `root`. Every state is visited once (first,
